@@ -120,26 +120,43 @@ def run(ctx, rep):
         rep.instance(R3, ok=ok, nontrivial=('predicates-sorted', many))
         if not ok:
             rep.finding(R3, f'C20.R3/_get_predicates_data/many_valued={many}', m.loc(MODELS, f('BaseModel.Frame._get_predicates_data')), 'Frame._get_predicates_data', f'predicates exported as {preds}, not sorted / not every predicate')
-    # --- having
-    for valset in (('F', 'N', 'T'), ('F', 'B', 'T'), ('F', 'N', 'B', 'T'), ('F', 'T')):
-        class Values:
-            def get(self, k, d=None):
-                return k if k in valset else d
-        mapping = {(f'c{i}',): v for i, v in enumerate(valset)}
+    # --- having: one interpreter for all value families, one after the other and each twice, as in one process -- members of
+    # different value enums are different objects even when their names agree, so a result (or a cache) from one family must not
+    # leak into another
+    for rnd in (1, 2):
+        for fam, valset in enumerate((('F', 'N', 'T'), ('F', 'B', 'T'), ('F', 'N', 'B', 'T'), ('F', 'T'))):
+            class Val(str):
+                "a member of this family's value enum: str(v) is its name, equality is by family and name"
+                def __new__(cls, name, fam_=fam):
+                    o = super().__new__(cls, name)
+                    o.fam = fam_
+                    return o
 
-        class PI:
-            model = Obj('model', values=Values())
+                def __eq__(self, other):
+                    return isinstance(other, str) and getattr(other, 'fam', None) == self.fam and str.__eq__(self, other)
 
-            def items(self):
-                return list(mapping.items())
-        for ask, members in ((('T', 'B'), {'T', 'B'}), (('B', 'F'), {'B', 'F'})):
-            r = it.generate(f('PredicateInterpretation.having'), [PI(), *ask])
-            want = [k for k, v in mapping.items() if v in members]
-            ok = r == want
-            rep.instance(R2, ok=ok, nontrivial=('having', valset, ask))
-            if not ok:
-                rep.finding(R2, f'C20.R2/having/{"".join(valset)}/{"".join(ask)}', m.loc(MODELS, f('PredicateInterpretation.having')), 'PredicateInterpretation.having',
-                            f'values {valset}: having{ask} yields {r}, expected the tuples whose stored value is in {sorted(members)}: {want}')
+                def __ne__(self, other):
+                    return not self.__eq__(other)
+                __hash__ = str.__hash__
+            members_ = {n_: Val(n_) for n_ in valset}
+
+            class Values:
+                def get(self, k, d=None, members_=members_):
+                    return members_.get(str(k), d)
+            mapping = {(f'c{i}',): members_[v] for i, v in enumerate(valset)}
+
+            class PI(Obj):
+                def items(self, mapping=mapping):
+                    return list(mapping.items())
+            for ask, wanted in ((('T', 'B'), {'T', 'B'}), (('B', 'F'), {'B', 'F'})):
+                pi = PI('interpretation', __srcclass__=(m, ClassRef(MODELS, 'PredicateInterpretation')), model=Obj('model', values=Values()))
+                r = it.generate(f('PredicateInterpretation.having'), [pi, *ask])
+                want = [k for k, v in mapping.items() if str(v) in wanted]
+                ok = r == want
+                rep.instance(R2, ok=ok, nontrivial=('having', valset, ask, rnd))
+                if not ok:
+                    rep.finding(R2, f'C20.R2/having/{"".join(valset)}/{"".join(ask)}', m.loc(MODELS, f('PredicateInterpretation.having')), 'PredicateInterpretation.having',
+                                f'values {valset} (family {fam + 1} of 4 used in this process, pass {rnd}): having{ask} yields {r}, expected the tuples whose stored value is in {sorted(wanted)}: {want}')
     # --- Access.flat sorted
     class Acc(dict):
         pass
